@@ -7,6 +7,7 @@ import (
 	"encoding/json"
 	"fmt"
 	"os"
+	"regexp"
 	"sort"
 	"strings"
 	"sync"
@@ -398,6 +399,15 @@ func complete(t *ref.Type, v ref.V, fuel int, lenient bool) (ref.V, bool) {
 			if !ok {
 				return nil, false
 			}
+			// "set" for an optional double with a default is Go's != on float64: -0 counts as the default 0
+			if d, isD := y.(float64); isD && f.HasDef && (f.Req == idl.ReqOptional || t.Struct.Kind == "union") {
+				if dd, ok := f.Default.(float64); ok && d == dd {
+					if t.Struct.Kind == "union" {
+						return nil, false // a union whose only member counts as unset cannot be written
+					}
+					y = f.Default
+				}
+			}
 			o.F[f.ID] = y
 		}
 		return o, true
@@ -438,7 +448,7 @@ func judge(c callCase) outcome {
 		return harnessf("%v", err)
 	}
 	if sess.Status != "ok" {
-		if sess.Status == "nocompile" && (strings.Contains(sess.Detail, "zz_verif_svc") || strings.Contains(sess.Detail, "x_svc.go")) {
+		if sess.Status == "nocompile" && ownFault(sess.Detail) {
 			return harnessf("the synthesized handlers do not compile: %s", sess.Detail)
 		}
 		return outcome{status: sess.Status, detail: sess.Detail}
@@ -600,6 +610,24 @@ func judge(c callCase) outcome {
 		lastSeq = seq
 	}
 	return outcome{status: "judged"}
+}
+
+var compileErrLine = regexp.MustCompile(`(?:^|[ \t|])([^ \t|:]+\.go):\d+:\d+: `)
+
+// ownFault: the build failed and every reported position lies in a file this
+// check wrote.  An error inside thriftgo's own files (C01 decides those) can
+// drag the synthesized files along, e.g. a redeclared constructor.
+func ownFault(detail string) bool {
+	own, other := 0, 0
+	for _, m := range compileErrLine.FindAllStringSubmatch(detail, -1) {
+		b := m[1][strings.LastIndex(m[1], "/")+1:]
+		if strings.HasPrefix(b, "zz_verif_svc") || b == "x_svc.go" {
+			own++
+		} else {
+			other++
+		}
+	}
+	return own > 0 && other == 0
 }
 
 func describe(m *methodJ) string {
@@ -829,7 +857,7 @@ func judgeCall(sch *ref.Schema, svc *svcJ, cl *callJ, m *methodJ, gm *goMethod, 
 
 // ---------- generation ----------
 
-func modelCfg() idl.Cfg {
+func modelCfg(rt *rapid.T) idl.Cfg {
 	c := idl.GoSafe()
 	c.MaxFiles = 3
 	c.MaxDefs = 3
@@ -838,7 +866,13 @@ func modelCfg() idl.Cfg {
 	c.NastyLits = false
 	c.Comments = false
 	c.DistinctThrows = true
-	c.NoZeroThrowsID = true
+	c.NoZeroThrowsID = true // id 0 in a throws list is the id of `success` in the result struct
+	// constants carry nothing of a call; without them the programs that C01/C06's listed
+	// findings about constant initialisers make unusable (rejected / not compiling) do not occur
+	c.Consts = false
+	// base services in the same Go package (two files, one namespace) and in packages named after the file
+	c.SharedNS = rapid.IntRange(0, 3).Draw(rt, "sharedns") == 0
+	c.NoNamespace = true
 	return c
 }
 
@@ -969,9 +1003,13 @@ var reservedIDL = map[string]bool{"bool": true, "byte": true, "i8": true, "i16":
 func enrich(rt *rapid.T, p *idl.Program) {
 	n := 0
 	for _, f := range p.Files {
-		var excs []*idl.Def
+		var excs []*idl.Def // exceptions, and typedefs of exceptions
 		for _, g := range append([]*idl.File{f}, f.Includes...) {
-			excs = append(excs, g.DefsOf(idl.KException)...)
+			for _, x := range g.Defs {
+				if x.Kind == idl.KException || (x.Kind == idl.KTypedef && x.Type.FinalCat() == "exception") {
+					excs = append(excs, x)
+				}
+			}
 		}
 		if len(excs) == 0 {
 			continue
@@ -981,13 +1019,18 @@ func enrich(rt *rapid.T, p *idl.Program) {
 				if fn.Oneway || len(fn.Throws) > 0 || rapid.IntRange(0, 2).Draw(rt, "addthrows") == 0 {
 					continue
 				}
-				k := rapid.IntRange(1, min(3, len(excs))).Draw(rt, "nthrows")
+				k := rapid.IntRange(1, 3).Draw(rt, "nthrows")
 				perm := rapid.Permutation(excs).Draw(rt, "throwtypes")
 				id := int32(0)
-				for i := 0; i < k; i++ {
-					id += int32(rapid.IntRange(1, 9).Draw(rt, "throwid"))
-					n++
-					fn.Throws = append(fn.Throws, &idl.Field{ID: id, Explicit: true, Name: fmt.Sprintf("fexc%d_%d", id, n), Type: &idl.Type{Ref: perm[i]}})
+				seen := map[*idl.Def]bool{} // each exception type at most once, also through typedefs
+				for _, x := range perm {
+					t := &idl.Type{Ref: x}
+					if fin := t.Final().Ref; !seen[fin] && len(fn.Throws) < k {
+						seen[fin] = true
+						id += int32(rapid.IntRange(1, 9).Draw(rt, "throwid"))
+						n++
+						fn.Throws = append(fn.Throws, &idl.Field{ID: id, Explicit: true, Name: fmt.Sprintf("fexc%d_%d", id, n), Type: t})
+					}
 				}
 				fn.HasThrows = true
 			}
@@ -1050,7 +1093,7 @@ func services(p *idl.Program) []*svcModel {
 						m.ArgIDs = append(m.ArgIDs, a.ID)
 					}
 					for _, t := range fn.Throws {
-						m.Throws = append(m.Throws, throwJ{ID: t.ID, Exc: t.Type.Ref.Name})
+						m.Throws = append(m.Throws, throwJ{ID: t.ID, Exc: t.Type.Final().Ref.Name})
 					}
 					sm.j.Methods = append(sm.j.Methods, m)
 				}
@@ -1178,7 +1221,7 @@ func outcomeKind(c *callJ) string {
 
 func TestCalls(t *testing.T) {
 	rapid.Check(t, func(rt *rapid.T) {
-		p := idl.Gen(rt, modelCfg())
+		p := idl.Gen(rt, modelCfg(rt))
 		enrich(rt, p)
 		stressed := false
 		if rapid.IntRange(0, 2).Draw(rt, "stress") == 0 {
